@@ -186,6 +186,16 @@ def cond_facts(c, m):
         return f, t
     if i.op in ("zext", "trunc", "sext"):
         return cond_facts(i.ops[0], m)
+    if i.op == "call":
+        # a Boolean classifier of this unit applied to the byte and branched on directly (bool is_hex_digit(char)): the edge
+        # that the NUL byte cannot take knows that the byte is not NUL
+        ld, zero_val = helper_of_byte(c, m)
+        if ld is not None and zero_val is not None:
+            k = pkey(ld.ops[0], m)
+            if k:
+                fact = ("nonnul", k[0], k[1])
+                return ([], [fact]) if zero_val else ([fact], [])
+        return [], []
     if i.op == "phi" and i.ty in ("i1", "i8", "i32"):
         # a && b as clang leaves it: false from the block that tested a, b's value from the block that tested b.  On the true
         # edge b holds (what held at the end of the block that evaluated b is added by edge_states)
@@ -263,6 +273,16 @@ def cond_facts(c, m):
                 if k[1] == 0 and lit[:1] == "0" and n >= 1:
                     eq_t.append(("pfx", k[0]))
                     eq_f.append(("pfx", k[0]))
+        elif helper_of_byte(a, m)[0] is not None:
+            # classifier(byte) == c / != c for a pure helper of this unit: NUL is on the side that helper(0) puts it
+            ld, zero_val = helper_of_byte(a, m)
+            k = pkey(ld.ops[0], m)
+            if k and zero_val is not None:
+                bits_ = int(b.ty[1:])
+                if (zero_val & ((1 << bits_) - 1)) == b.uval:
+                    eq_f.append(("nonnul", k[0], k[1]))
+                else:
+                    eq_t.append(("nonnul", k[0], k[1]))
         else:
             ld = ctype_byte(a)
             if ld is not None and b.uval == 0:
@@ -581,6 +601,26 @@ class Cursor:
         return IN
 
 
+def unmodelled_byte_tests(fn):
+    """Comparisons whose operand is computed from a byte of the text by arithmetic (c | 0x20, c - '0', ...): the cursor analysis
+    reads comparisons of the byte itself, the <ctype.h> classes and classifier helpers; what such a test says about the byte
+    being NUL is not modelled, so 'no earlier test shows the byte is not NUL' cannot be concluded in a function that has one."""
+    out = []
+    for blk in fn.order:
+        for i in blk.insts:
+            if i.op != "icmp":
+                continue
+            for o in i.ops:
+                v = o
+                while v.inst is not None and v.inst.op in ("sext", "zext", "trunc"):
+                    v = v.inst.ops[0]
+                j = v.inst
+                if j is not None and j.op in ("or", "and", "xor", "add", "sub", "shl", "lshr", "ashr", "mul") \
+                        and any(byte_of(x) is not None for x in j.ops):
+                    out.append(i)
+    return out
+
+
 def check_get_byte(chk, m):
     fn = m.fn("hex_get_byte")
     chk.note_fn(fn)
@@ -590,11 +630,17 @@ def check_get_byte(chk, m):
     PFX_SEEN[0] = 0
     IN = cur.run()
     seen = set()
+    opaque = unmodelled_byte_tests(fn)
     for rule, inst, ok, detail in cur.findings:
         key = (rule, inst.loc, inst.name, ok)
         if key in seen:
             continue
         seen.add(key)
+        if not ok and opaque and rule.startswith("H1."):
+            chk.unknown(rule, "hex_get_byte %s %s" % (inst.op, inst.name or ""),
+                        "%s - but the function tests a value computed from a byte of the text (%s), and what that test says about "
+                        "the byte is not modelled" % (detail, opaque[0].loc), inst.loc)
+            continue
         chk.ob(rule, "hex_get_byte %s %s" % (inst.op, inst.name or ""), ok, detail, inst.loc, fn.name)
     chk.expect("H1", "byte loads in hex_get_byte", cur.n_loads, 6)
     chk.expect("H1", "scans (strchr/strspn) in hex_get_byte", cur.n_advances, 2)
@@ -646,8 +692,12 @@ def check_return_edge(chk, m, fn, t, v, pred, blk, part, S):
                % (str(pv[0][1:]) if pv else "an unknown value"), t.loc, fn.name)
         return
     ok_store = bool(pv) and ("instr", pv[0][1], pv[0][2]) in S
-    chk.ob("H2.success-cursor", where, ok_store,
-           "success stores a cursor inside the string (%s)" % (str(pv[0][1:]) if pv else "none stored"), t.loc, fn.name)
+    if not ok_store and pv and unmodelled_byte_tests(fn):
+        chk.unknown("H2.success-cursor", where, "the cursor stored on success (%s) is not known to be inside the string, but the "
+                    "function tests a value computed from a byte of the text, which is not modelled" % str(pv[0][1:]), t.loc)
+    else:
+        chk.ob("H2.success-cursor", where, ok_store,
+               "success stores a cursor inside the string (%s)" % (str(pv[0][1:]) if pv else "none stored"), t.loc, fn.name)
     i = v.inst
     shape = False
     detail = "returned value is not 16*nibble(s[0]) | nibble(s[1])"
